@@ -622,12 +622,16 @@ class _Env:
                     raise _Abort(f'store failed: {ex}')
             elif isinstance(o, Unknown):
                 pass
+            elif isinstance(o, AObj) and hasattr(o, '__setitem__') and is_known(k):
+                o[k] = v        # abstract stand-in with mapping behaviour
             else:
                 raise _Abort('subscript store on unsupported object')
         elif isinstance(t, ast.Attribute):
             o = self.ev(t.value)
             if isinstance(o, _ObjVal):
                 o.attrs[t.attr] = v
+            elif isinstance(o, AObj) and getattr(o, '_track_attribute_stores', False):
+                setattr(o, t.attr, v)      # abstract stand-ins that opt in (e.g. registry nodes)
             # attribute stores on anything else are ignored (not tracked)
         else:
             raise _Abort(f'unsupported target {type(t).__name__}')
